@@ -13,11 +13,13 @@ def run(ctx):
         r = ctx.model_check("Resolver/RetryModel.tla", cfgname, workers=8, timeout=600)
         if r.violation:
             raise vlib.MachineryError("RetryModel.tla violates %s" % r.violation)
+    # several datagrams read by one processing call
+    batch = {"module": "GenBatch.tla", "cfg": "GenBatch.cfg", "name": "batch"}
     if ctx.quick:
-        gens = [{"module": "Gen_C09.tla", "cfg": "Gen_C09_quick.cfg", "name": "bfs"}]
+        gens = [{"module": "Gen_C09.tla", "cfg": "Gen_C09_quick.cfg", "name": "bfs"}, batch]
     else:
         gens = [{"module": "Gen_C09.tla", "cfg": "Gen_C09_thorough.cfg", "name": "bfs"},
-                {"module": "Gen_C09.tla", "cfg": "Gen_C09_sim.cfg", "name": "sim", "simulate": 2000, "depth": 14}]
+                {"module": "Gen_C09.tla", "cfg": "Gen_C09_sim.cfg", "name": "sim", "simulate": 2000, "depth": 14}, batch]
     simlib.engine_check(ctx, gens, FACETS, labels=LABELS, selftests=mutators.RETRY)
     extra(ctx)
 
